@@ -1,4 +1,5 @@
 import RactorModel.Model.Remote
+import RactorModel.Model.Link
 import Driver.Common
 
 /-! Driver for the `Remote` model (C20). Ops as written by `harness/hcluster/src/bin/c20.rs`.
@@ -70,8 +71,17 @@ structure CallInfo where
 structure E2E where
   /-- per probe: 0 up, 1 stop issued, 2 down, 3 spawn issued -/
   probes : List Nat := []
-  /-- 0 up, 1 cut issued, 2 down, 4 may die any time (`cutafter`) -/
+  /-- 0 up, 1 cut issued, 2 down, 4 may die any time (`cutafter`), 5 dies with the next batch
+  the faulty node's writer task handles (`fault <d> write|flush`) -/
   link : Nat := 0
+  /-- the transport fault that was injected, if any -/
+  fault : Option String := none
+  /-- `Model/Link.lean`: the faulty node's tcp session / writer task / reader / node session; the
+  link is taken to be down when this model says the session has stopped -/
+  lk : Link.S Nat := {}
+  /-- the link is down only according to the model of what the code does when a remote REFERENCE
+  is stopped (`Link.Ev.proxyStopped`): predictions are compared, no property clause is raised -/
+  modelOnly : Bool := false
   pxs : List PX := []
   calls : List CallInfo := []
   settled : Bool := true
@@ -96,6 +106,18 @@ def E2E.localNow (e : E2E) : Memb := e.evs.foldl Memb.apply e.l0
 /-- the remote references' memberships on a peer that has processed everything it was sent:
 `Remote.Mirror` run over `Remote.syncStream` (initial scan, then the notifications in order) -/
 def E2E.remoteNow (e : E2E) : Memb := (Mirror.run {} (syncStream e.l0.keys e.l0 e.evs)).members
+
+/-- name of the clause for "the link is down but a remote reference lives on" -/
+def E2E.downClause (e : E2E) (running members accepted : Nat) : List String :=
+  if e.modelOnly then [] else
+  match e.fault with
+  | some k =>
+    if e.link == 2 then
+      -- the oracle proved of the model (`C20.okDown_model`), on the implementation's observation
+      (if Link.okDown e.lk.faulted true running members accepted then []
+       else [s!"transport-error-did-not-close-session fault={k}"])
+    else ["mirror"]
+  | none => ["mirror"]
 
 def scopeOf (s : String) : String := if s == "-" then "" else s
 
@@ -173,7 +195,7 @@ def stepE2E (e : E2E) (w : List String) (impl : String) : Option (E2E × StepOut
       | 3 => some (e, { model := "noproxy" })
       | 0 => some (e.setPx { p with net := p.net.step (.cast sender seq) }, { model := "ok", nontrivial := true })
       | 2 => some (e, { model := if impl == "noproxy" then impl else "err",
-                        oracle := if impl == "ok" then ["mirror"] else [] })
+                        oracle := if impl == "ok" then e.downClause 0 0 1 else [] })
       | _ =>
         -- uncertain: the send may or may not be accepted, and may or may not arrive
         if impl == "ok" then some (e.setPx { p with net := p.net.step (.cast sender seq), exact := false }, { model := impl })
@@ -181,6 +203,13 @@ def stepE2E (e : E2E) (w : List String) (impl : String) : Option (E2E × StepOut
     | _, _, _, _ => none
   | ["advance", ms] =>
     ms.toNat?.map fun ms =>
+      -- a quiet period longer than the ping period (1-5 s): the ping loop hands a frame to the
+      -- session; a writer task whose transport fails stops its session (`Model/Link.lean`)
+      let e := if e.link == 5 && ms ≥ 5000 then
+          let io : Link.Ev Nat := if e.fault == some "write" then .writer .err .ok else .writer .ok .err
+          { e with pxs := e.pxs.map fun (p : PX) => { p with net := p.net.step .cut, exact := p.exact && e.settled },
+                   link := 1, lk := Link.run e.lk [.send 0, io] }
+        else e
       let now := e.now + ms
       let e := { e with now := now, settled := false }
       -- callers whose timeout has come give up: their port closes
@@ -268,7 +297,9 @@ def stepE2E (e : E2E) (w : List String) (impl : String) : Option (E2E × StepOut
   | ["settle"] =>
     if impl != "quiet" then some ({ e with settled := false }, { model := "quiet" }) else
     let probes := e.probes.map fun s => if s == 1 then 2 else if s == 3 then 0 else s
-    let link := if e.link == 1 then 2 else e.link
+    let lk := Link.settle e.lk
+    let link := if e.link == 1 && ((e.fault.isNone && !e.modelOnly) || !lk.sessUp) then 2 else e.link
+    let e := { e with lk := lk }
     let stoppedNow := fun (t : Nat) => e.probes[t]? == some 1
     let e := { e with probes := probes, link := link, settled := true }
     let pxs := e.pxs.map fun (p : PX) =>
@@ -378,9 +409,50 @@ def stepE2E (e : E2E) (w : List String) (impl : String) : Option (E2E × StepOut
         [s!"remote-membership-differs-from-original scope={scName} group={g} node={node} originals={idx "L"} remote={idx pre}"]
       else []
     some (e, { model := if calm then wantS else impl,
-               oracle := differs 0 "Ra" "a" ++ differs 1 "Rb" "b" ++ (if stale || missing then ["mirror"] else []),
+               oracle := differs 0 "Ra" "a" ++ differs 1 "Rb" "b" ++
+                 (if stale && e.settled && e.link == 2 then e.downClause 0 (got.filter (·.startsWith "R")).length 0
+                  else if stale || missing then ["mirror"] else []),
                nontrivial := got.length > 1, key := some s!"members {k.1 != ""} {impl}" })
-  | ["spawn"] => some ({ e with probes := e.probes ++ [3], evs := e.evs ++ [.join "" s!"p{e.probes.length}" [e.probes.length]],
+  | ["stopproxy", d, t] =>
+    match parseDir? d, t.toNat? with
+    | some d, some t =>
+      if e.starved d || e.pstate t == 3 || impl == "none" then some (e, { model := "none" }) else
+      if e.pstate t != 0 then some ({ e with settled := false }, { model := impl }) else
+      -- `Model/Link.lean`: the node session fails, every reference of that session stops
+      let lk := Link.run e.lk [.ctl (.spawn [t]), .proxyStopped t]
+      let e := affect e fun _ => true
+      let pxs := e.pxs.map fun (p : PX) => { p with net := p.net.step .cut }
+      some ({ e with pxs := pxs, lk := lk, link := if lk.nodeUp then e.link else 1, modelOnly := true, settled := false },
+            { model := "ok", nontrivial := true })
+    | _, _ => none
+  | ["releaseheld", t] =>
+    t.toNat?.map fun t =>
+      if e.probes[t]?.isNone then (e, { model := "noprobe" }) else
+      ({ e with settled := false }, { model := impl })
+  | ["fault", d, kind] =>
+    (parseDir? d).map fun _ =>
+      let e := affect e fun _ => true
+      if e.link != 0 then ({ e with settled := false }, { model := "ok" }) else
+      if kind == "read" then
+        -- the reader's next `read_network_message` fails: the faulty node's own proxies lose their
+        -- session (`loseA`: frames under way may still arrive), the peer's proxies lose the link
+        let dn := (parseDir? d).getD 0
+        let pxs := e.pxs.map fun (p : PX) => { p with net := p.net.step (if p.dir == dn then .loseA else .cut) }
+        ({ e with pxs := pxs, link := 1, fault := some kind, lk := Link.step e.lk (.read .err), settled := false },
+         { model := "ok", nontrivial := true })
+      else
+        ({ e with link := 5, fault := some kind, settled := false }, { model := "ok", nontrivial := true })
+  | ["faultseen", _] =>
+    some (e, { model := if e.settled && e.link == 2 && e.fault.isSome then "reported" else impl })
+  | ["spawn"] =>
+    -- both nodes announce the new probe: a writer task whose transport fails stops its session
+    let e := if e.link == 5 then
+        -- the node session sends a Spawn frame; the writer task's batch meets the fault
+        let io : Link.Ev Nat := if e.fault == some "write" then .writer .err .ok else .writer .ok .err
+        { e with pxs := e.pxs.map fun (p : PX) => { p with net := p.net.step .cut, exact := p.exact && e.settled },
+                 link := 1, lk := Link.run e.lk [.send 0, io] }
+      else e
+    some ({ e with probes := e.probes ++ [3], evs := e.evs ++ [.join "" s!"p{e.probes.length}" [e.probes.length]],
                                  settled := false }, { model := "ok" })
   | ["stop", t] =>
     t.toNat?.map fun t =>
@@ -397,7 +469,7 @@ def stepE2E (e : E2E) (w : List String) (impl : String) : Option (E2E × StepOut
       let calm := e.settled
       let model := if calm && st == 0 then "Running" else if calm && st == 2 && impl != "none" then "Stopped" else impl
       some (e, { model := model,
-                 oracle := if calm && st == 2 && impl != "none" && impl != "Stopped" then ["mirror"] else [] })
+                 oracle := if calm && st == 2 && impl != "none" && impl != "Stopped" then e.downClause 1 0 0 else [] })
     | _, _ => none
   | ["release"] => some ({ e with held := none, settled := false }, { model := "ok", nontrivial := e.held.isSome })
   | ["cutafter", _, _] =>
